@@ -114,6 +114,10 @@ class World:
         step = kw.pop('step_size', 1e-3)
         if op.get('input'):
             kw['inputs'] = {op['input']['target']: _input_array(op['input'])}
+        if op.get('decorator'):
+            kw['decorator'] = _DECORATORS[op['decorator']]
+        if '/' in str(kw.get('file_name', '')):
+            os.makedirs(os.path.dirname(kw['file_name']), exist_ok=True)     # PyRates expects the directory to exist
         fn = getattr(c, api)
         name = op.get('func_name', 'vf')
         res = self._with_fault(op.get('fault'), lambda: fn(name, step, **kw))
@@ -147,6 +151,8 @@ class World:
         outputs = kw.pop('outputs')
         if op.get('input'):
             kw['inputs'] = {op['input']['target']: _input_array(op['input'])}
+        if '/' in str(kw.get('file_name', '')):
+            os.makedirs(os.path.dirname(kw['file_name']), exist_ok=True)
         rec = None
         fault = op.get('fault')
         if fault and fault['kind'] == 'rhs':
@@ -230,6 +236,27 @@ class World:
         if op.get('as'):
             self.objs[op['as']] = new
         return {'status': 'ok'}
+
+
+def _dec_neg(f):
+    def g(*a):
+        return -np.asarray(f(*a))
+    return g
+
+
+def _dec_half(f):
+    def g(*a):
+        return 0.5 * np.asarray(f(*a))
+    return g
+
+
+def _dec_id(f):
+    def g(*a):
+        return f(*a)
+    return g
+
+
+_DECORATORS = {'neg': _dec_neg, 'half': _dec_half, 'id': _dec_id}
 
 
 def _input_array(inp):
